@@ -268,7 +268,7 @@ def _strategy():
             singleton = draw(st.integers(0, 4)) == 0
             np_ = draw(st.integers(0, 1)) if singleton else \
                 draw(st.integers(0, 4))
-            gt = draw(st.sampled_from([0.1, 0.3, 1.0, 2.0]))
+            gt = draw(st.sampled_from([0.1, 0.3, 1.0, 2.0, 0.1, 0.3, 0]))
             gts.append(gt)
             wc = {"name": "w%d" % i, "numprocesses": np_,
                   "graceful_timeout": gt,
